@@ -33,7 +33,13 @@ func (r *ComDoc) readDir() error {
 	raw := make([]RawDirEnt, count)
 	cooked := make([]DirEnt, count)
 	rootIndex := -1
-	for sector := r.Header.DirNextSector; sector >= 0; sector = r.SAT[sector] {
+	sector := r.Header.DirNextSector
+	for sectors := 0; sector >= 0; sectors++ {
+		// every link in the chain is a distinct sector, so a chain longer than
+		// the file has sectors must be looping
+		if sectors >= r.sectorCount {
+			return errors.New("directory sector chain is longer than the file")
+		}
 		if err := r.readSectorStruct(sector, raw); err != nil {
 			return err
 		}
@@ -48,6 +54,10 @@ func (r *ComDoc) readDir() error {
 			}
 		}
 		files = append(files, cooked...)
+		var err error
+		if sector, err = chainNext(r.SAT, sector); err != nil {
+			return err
+		}
 	}
 	if rootIndex < 0 {
 		return errors.New("missing root storage")
